@@ -53,7 +53,7 @@ def one(idm):
     readme = os.path.join(wt, 'mutants', 'README.md')
     if os.path.exists(readme):
         meta['author_notes'] = open(readme).read()[:6000]
-    dest = os.path.join(VERIF, 'seeded', '%s-%s' % (d, m))
+    dest = os.path.join(VERIF, 'seeded', '%s-%s%s' % (d, os.environ.get('SEEDED_ROUND', ''), m))
     os.makedirs(dest, exist_ok=True)
     shutil.copy(diff, os.path.join(dest, 'patch.diff'))
     shutil.copy(demo, os.path.join(dest, 'demo.py'))
@@ -62,11 +62,13 @@ def one(idm):
 
 
 def per_id(d):
-    return [one((d, 'a')), one((d, 'b'))]
+    return [one((d, m)) for m in ('a', 'b', 'c')]
 
 
 with ThreadPoolExecutor(max_workers=3) as ex:
     for res in ex.map(per_id, ids):
         for r in res:
+            if r is None:
+                continue
             print(json.dumps(r))
             sys.stdout.flush()
